@@ -90,7 +90,7 @@ def record(cases: dict) -> dict:
             except Exception:
                 raised = True
             rej.append({"s": p, "raised": raised})
-    return {"acc": acc, "rel": rel, "res": res, "rej": rej}
+    return {"segs": cases["segs"], "acc": acc, "rel": rel, "res": res, "rej": rej}
 
 
 def corrupt(obs: dict) -> dict:
@@ -112,7 +112,7 @@ def main() -> int:
     nseg, nd, bd = (7, 4, 2) if thorough else (7, 3, 2)
     cfg = os.path.join(work, "MC_PackUri.cfg")
     with open(cfg, "w") as f:
-        f.write("INIT Init\nNEXT Next\nCHECK_DEADLOCK FALSE\nCONSTANTS NSEG = %d\n NDEPTH = %d\n BDEPTH = %d\n" % (nseg, nd, bd))
+        f.write("INIT Init\nNEXT Next\nCHECK_DEADLOCK FALSE\nCONSTANTS NSEG = %d\n NDEPTH = %d\n BDEPTH = %d\n Segs <- DefaultSegs\n" % (nseg, nd, bd))
     cases_file = os.path.join(work, "cases.json")
     mc = E.run_tlc("MC_PackUri", cfg, work=work, env={"CASES_FILE": cases_file}, workers=1, timeout=3000, heap="24g")
     dom = mc.printed("DOMAIN")[-1]
@@ -146,7 +146,7 @@ def main() -> int:
 
     def run(ix_part):
         ix, (a, rl, rs, rj) = ix_part
-        return E.validate("Trace_PackUri", {"acc": a, "rel": rl, "res": rs, "rej": rj}, work=work,
+        return E.validate("Trace_PackUri", {"segs": obs["segs"], "acc": a, "rel": rl, "res": rs, "rej": rj}, work=work,
                           name="obs%d" % ix, heap="6g", timeout=3000)
     with cf.ThreadPoolExecutor(8) as ex:
         for b, s, _ in ex.map(run, list(enumerate(parts))):
